@@ -1,6 +1,7 @@
 package main
 
 import (
+	"sync"
 	"fmt"
 	"go/constant"
 	"go/token"
@@ -39,9 +40,44 @@ type Violation struct {
 	Msg   string
 }
 
+type fnInfo struct {
+	idx map[ssa.Value]int
+	n   int
+}
+
+func (in *Interp) infoFor(fn *ssa.Function) *fnInfo {
+	if fi, ok := in.fnInfos[fn]; ok {
+		return fi
+	}
+	fi := &fnInfo{idx: map[ssa.Value]int{}}
+	add := func(v ssa.Value) {
+		if _, ok := fi.idx[v]; !ok {
+			fi.idx[v] = fi.n
+			fi.n++
+		}
+	}
+	for _, p := range fn.Params {
+		add(p)
+	}
+	for _, fv := range fn.FreeVars {
+		add(fv)
+	}
+	for _, b := range fn.Blocks {
+		for _, ins := range b.Instrs {
+			if v, ok := ins.(ssa.Value); ok {
+				add(v)
+			}
+		}
+	}
+	in.fnInfos[fn] = fi
+	return fi
+}
+
 type frame struct {
 	fn     *ssa.Function
-	locals map[ssa.Value]Value
+	fi     *fnInfo
+	locals []Value
+	set    []bool
 	defers []func()
 	env    []Value
 	prev   *ssa.BasicBlock
@@ -84,8 +120,15 @@ type Interp struct {
 		feasQ, assertQ, cacheHits int
 	}
 	qcache   map[string]string
+	ecache   map[string][]int64
 	varCache map[int][]int
 	varIDs   map[string]int
+	fnInfos  map[*ssa.Function]*fnInfo
+	fnMetas  map[*ssa.Function]*fnMeta
+	pcEq     map[int]uint64
+	pcNe     map[int][]uint64
+	snap     *snapshot
+	noSnap   bool
 	cfg      *Config
 	// per-run scratch for harness intrinsics
 	ufDecl      map[string]bool
@@ -141,6 +184,65 @@ func (in *Interp) addPC(t *Term) {
 	}
 	in.pcSet[t.id] = true
 	in.pc = append(in.pc, t)
+	// remember (dis)equalities of byte variables with constants for PC-aware library models
+	if t.op == OpEq && t.args[0].op == OpVar && t.args[1].op == OpConst && t.args[0].sort == 8 {
+		in.pcEq[t.args[0].id] = t.args[1].val
+	} else if t.op == OpBNot && t.args[0].op == OpEq && t.args[0].args[0].op == OpVar && t.args[0].args[1].op == OpConst && t.args[0].args[0].sort == 8 {
+		v := t.args[0].args[0]
+		in.pcNe[v.id] = append(in.pcNe[v.id], t.args[0].args[1].val)
+	}
+}
+
+// byteClass reports what the path condition and the domain say about a byte term:
+// known value, or whether every remaining value is printable ASCII / ASCII.
+func (in *Interp) byteClass(b *Term) (val uint64, known, allPrintable, nonePrintable, allASCII bool) {
+	if b.op == OpConst {
+		p := b.val >= 0x20 && b.val <= 0x7e
+		return b.val, true, p, !p, b.val < 0x80
+	}
+	if b.op != OpVar {
+		return 0, false, false, false, false
+	}
+	if v, ok := in.pcEq[b.id]; ok {
+		p := v >= 0x20 && v <= 0x7e
+		return v, true, p, !p, v < 0x80
+	}
+	if b.dom == nil || !b.dom.isBits {
+		return 0, false, false, false, false
+	}
+	ne := in.pcNe[b.id]
+	allPrintable, nonePrintable, allASCII = true, true, true
+	cnt := 0
+	var last uint64
+	for v := uint64(0); v < 256; v++ {
+		if !b.dom.has(v) {
+			continue
+		}
+		excluded := false
+		for _, x := range ne {
+			if x == v {
+				excluded = true
+				break
+			}
+		}
+		if excluded {
+			continue
+		}
+		cnt++
+		last = v
+		if v >= 0x20 && v <= 0x7e {
+			nonePrintable = false
+		} else {
+			allPrintable = false
+		}
+		if v >= 0x80 {
+			allASCII = false
+		}
+	}
+	if cnt == 1 {
+		return last, true, allPrintable, nonePrintable, allASCII
+	}
+	return 0, false, allPrintable, nonePrintable, allASCII
 }
 
 func (in *Interp) syncSolver() {
@@ -245,6 +347,11 @@ func (in *Interp) feasible(t *Term) string {
 	if r, ok := in.qcache[key]; ok {
 		in.stats.cacheHits++
 		return r
+	}
+	if qstat != nil && len(in.stack) > 0 {
+		qstatMu.Lock()
+		qstat[in.stack[len(in.stack)-1]+" :: "+in.tt.SMT(t)[:min(60, len(in.tt.SMT(t)))]]++
+		qstatMu.Unlock()
 	}
 	in.solver.Push()
 	for _, c := range sl {
@@ -360,34 +467,45 @@ func (in *Interp) concretize(t *Term, what string) int64 {
 	}
 	limit := in.cfg.EnumCap
 	var found []int64
-	in.solver.Push()
-	in.solver.asserted = 0
-	in.syncSolver()
-	for {
-		r := in.solver.Check()
-		in.stats.feasQ++
-		if r == "unknown" {
-			in.unknowns++
-			break
+	sl := in.sliceFor(t)
+	ekey := queryKey(sl, t) + "#enum"
+	if cached, ok := in.ecache[ekey]; ok {
+		in.stats.cacheHits++
+		found = append(found, cached...)
+	} else {
+		in.solver.Push()
+		for _, c := range sl {
+			in.solver.Assert(c)
 		}
-		if r != "sat" {
-			break
+		inconclusive := false
+		for {
+			r := in.solver.Check()
+			in.stats.feasQ++
+			if r == "unknown" {
+				in.unknowns++
+				inconclusive = true
+				break
+			}
+			if r != "sat" {
+				break
+			}
+			vals := in.evalInSolver(t)
+			found = append(found, vals)
+			if len(found) > limit {
+				in.solver.Pop()
+				panic(engineErr{kind: "BOUND-EXCEEDED", msg: fmt.Sprintf("more than %d values for symbolic %s", limit, what)})
+			}
+			in.solver.Assert(in.tt.Not(in.tt.Bin(OpEq, t, in.tt.Const(t.sort, uint64(vals)))))
 		}
-		// get value of t via a fresh definition
-		vals := in.evalInSolver(t)
-		found = append(found, vals)
-		if len(found) > limit {
-			in.solver.Pop()
-			panic(engineErr{kind: "BOUND-EXCEEDED", msg: fmt.Sprintf("more than %d values for symbolic %s", limit, what)})
+		in.solver.Pop()
+		sortInt64(found)
+		if !inconclusive {
+			in.ecache[ekey] = append([]int64(nil), found...)
 		}
-		in.solver.Assert(in.tt.Not(in.tt.Bin(OpEq, t, in.tt.Const(t.sort, uint64(vals)))))
 	}
-	in.solver.Pop()
 	if len(found) == 0 {
 		panic(pathAbort{"no value"})
 	}
-	// deterministic order
-	sortInt64(found)
 	for k := len(found) - 1; k >= 1; k-- {
 		in.pushAlt(Decision{'V', found[k]})
 	}
@@ -575,11 +693,11 @@ func (in *Interp) get(fr *frame, v ssa.Value) Value {
 	case *ssa.Builtin:
 		in.unsupported("builtin as value " + x.Name())
 	}
-	r, ok := fr.locals[v]
-	if !ok {
+	i, ok := fr.fi.idx[v]
+	if !ok || !fr.set[i] {
 		in.unsupported(fmt.Sprintf("unset SSA value %s in %s", v.Name(), fr.fn))
 	}
-	return r
+	return fr.locals[i]
 }
 
 func (in *Interp) global(g *ssa.Global) *Obj {
@@ -696,9 +814,24 @@ func (in *Interp) strLess(a, b StrV) *Term { // a < b lexicographically (byte-wi
 
 // ---------- function execution
 
+type fnMeta struct {
+	name string
+	intr intrinsic
+}
+
+func (in *Interp) metaFor(fn *ssa.Function) *fnMeta {
+	if m, ok := in.fnMetas[fn]; ok {
+		return m
+	}
+	m := &fnMeta{name: fn.String(), intr: in.lookupIntrinsic(fn)}
+	in.fnMetas[fn] = m
+	return m
+}
+
 func (in *Interp) callFn(fn *ssa.Function, args []Value, env []Value) Value {
-	if h := in.lookupIntrinsic(fn); h != nil {
-		in.stack = append(in.stack, fn.String())
+	meta := in.metaFor(fn)
+	if h := meta.intr; h != nil {
+		in.stack = append(in.stack, meta.name)
 		r := h(in, fn, args)
 		in.stack = in.stack[:len(in.stack)-1]
 		return r
@@ -711,13 +844,14 @@ func (in *Interp) callFn(fn *ssa.Function, args []Value, env []Value) Value {
 	if in.depth > 200 {
 		panic(engineErr{kind: "BOUND-EXCEEDED", msg: "call depth > 200 in " + fn.String()})
 	}
-	in.stack = append(in.stack, fn.String())
-	fr := &frame{fn: fn, locals: make(map[ssa.Value]Value, 16), env: env}
+	in.stack = append(in.stack, meta.name)
+	fi := in.infoFor(fn)
+	fr := &frame{fn: fn, fi: fi, locals: make([]Value, fi.n), set: make([]bool, fi.n), env: env}
 	for i, p := range fn.Params {
-		fr.locals[p] = args[i]
+		fr.setv(p, args[i])
 	}
 	for i, fv := range fn.FreeVars {
-		fr.locals[fv] = env[i]
+		fr.setv(fv, env[i])
 	}
 	r := in.run(fr)
 	in.stack = in.stack[:len(in.stack)-1]
@@ -751,7 +885,7 @@ func (in *Interp) run(fr *frame) Value {
 			phiVals = append(phiVals, in.get(fr, phi.Edges[idx]))
 		}
 		for i := 0; i < nphi; i++ {
-			fr.locals[b.Instrs[i].(*ssa.Phi)] = phiVals[i]
+			fr.setv(b.Instrs[i].(*ssa.Phi), phiVals[i])
 		}
 		for _, ins := range b.Instrs[nphi:] {
 			in.steps++
@@ -851,7 +985,7 @@ func (in *Interp) exec(fr *frame, ins ssa.Instruction) {
 	case *ssa.Alloc:
 		et := x.Type().(*types.Pointer).Elem()
 		o := in.newObj(et, in.zero(et), "alloc")
-		fr.locals[x] = PtrV{obj: o}
+		fr.setv(x, PtrV{obj: o})
 	case *ssa.Store:
 		p := in.get(fr, x.Addr).(PtrV)
 		if p.isNil() {
@@ -860,11 +994,11 @@ func (in *Interp) exec(fr *frame, ins ssa.Instruction) {
 		in.logAccess("wr", p)
 		p.store(in.get(fr, x.Val))
 	case *ssa.UnOp:
-		fr.locals[x] = in.unop(fr, x)
+		fr.setv(x, in.unop(fr, x))
 	case *ssa.BinOp:
-		fr.locals[x] = in.binop(fr, x, x.Op, in.get(fr, x.X), in.get(fr, x.Y), x.X.Type())
+		fr.setv(x, in.binop(fr, x, x.Op, in.get(fr, x.X), in.get(fr, x.Y), x.X.Type()))
 	case *ssa.Call:
-		fr.locals[x] = in.callCommon(fr, &x.Call, x)
+		fr.setv(x, in.callCommon(fr, &x.Call, x))
 	case *ssa.Defer:
 		cc := x.Call
 		// evaluate now
@@ -873,39 +1007,39 @@ func (in *Interp) exec(fr *frame, ins ssa.Instruction) {
 	case *ssa.Go:
 		in.unsupported("go statement")
 	case *ssa.ChangeType:
-		fr.locals[x] = in.get(fr, x.X)
+		fr.setv(x, in.get(fr, x.X))
 	case *ssa.ChangeInterface:
-		fr.locals[x] = in.get(fr, x.X)
+		fr.setv(x, in.get(fr, x.X))
 	case *ssa.MakeInterface:
-		fr.locals[x] = IfaceV{t: x.X.Type(), v: in.get(fr, x.X)}
+		fr.setv(x, IfaceV{t: x.X.Type(), v: in.get(fr, x.X)})
 	case *ssa.MakeClosure:
 		env := make([]Value, len(x.Bindings))
 		for i, b := range x.Bindings {
 			env[i] = in.get(fr, b)
 		}
-		fr.locals[x] = FuncV{fn: x.Fn.(*ssa.Function), env: env}
+		fr.setv(x, FuncV{fn: x.Fn.(*ssa.Function), env: env})
 	case *ssa.Convert:
-		fr.locals[x] = in.convert(fr, x, in.get(fr, x.X), x.X.Type(), x.Type())
+		fr.setv(x, in.convert(fr, x, in.get(fr, x.X), x.X.Type(), x.Type()))
 	case *ssa.Extract:
-		fr.locals[x] = in.get(fr, x.Tuple).(TupleV)[x.Index]
+		fr.setv(x, in.get(fr, x.Tuple).(TupleV)[x.Index])
 	case *ssa.Field:
-		fr.locals[x] = in.get(fr, x.X).(*StructV).f[x.Field]
+		fr.setv(x, in.get(fr, x.X).(*StructV).f[x.Field])
 	case *ssa.FieldAddr:
 		p := in.get(fr, x.X).(PtrV)
 		if p.isNil() {
 			in.rtPanic(fr, ins, "invalid memory address or nil pointer dereference")
 		}
-		fr.locals[x] = p.sub(x.Field)
+		fr.setv(x, p.sub(x.Field))
 	case *ssa.Index:
 		xv := in.get(fr, x.X)
 		idx := in.get(fr, x.Index).(*Term)
 		switch c := xv.(type) {
 		case StrV:
 			i := in.checkIndex(fr, ins, idx, len(c.b))
-			fr.locals[x] = c.b[i]
+			fr.setv(x, c.b[i])
 		case *ArrayV:
 			i := in.checkIndex(fr, ins, idx, len(c.e))
-			fr.locals[x] = c.e[i]
+			fr.setv(x, c.e[i])
 		default:
 			in.unsupported(fmt.Sprintf("Index on %T", xv))
 		}
@@ -915,14 +1049,14 @@ func (in *Interp) exec(fr *frame, ins ssa.Instruction) {
 		switch c := xv.(type) {
 		case SliceV:
 			i := in.checkIndex(fr, ins, idx, c.len)
-			fr.locals[x] = PtrV{obj: c.arr, path: []int{c.off + i}}
+			fr.setv(x, PtrV{obj: c.arr, path: []int{c.off + i}})
 		case PtrV: // *array
 			if c.isNil() {
 				in.rtPanic(fr, ins, "invalid memory address or nil pointer dereference")
 			}
 			n := len(c.load().(*ArrayV).e)
 			i := in.checkIndex(fr, ins, idx, n)
-			fr.locals[x] = c.sub(i)
+			fr.setv(x, c.sub(i))
 		default:
 			in.unsupported(fmt.Sprintf("IndexAddr on %T", xv))
 		}
@@ -931,7 +1065,7 @@ func (in *Interp) exec(fr *frame, ins ssa.Instruction) {
 		switch c := xv.(type) {
 		case StrV:
 			i := in.checkIndex(fr, ins, in.get(fr, x.Index).(*Term), len(c.b))
-			fr.locals[x] = c.b[i]
+			fr.setv(x, c.b[i])
 		case *MapV:
 			k := in.get(fr, x.Index)
 			vt := x.X.Type().Underlying().(*types.Map).Elem()
@@ -940,15 +1074,15 @@ func (in *Interp) exec(fr *frame, ins ssa.Instruction) {
 				v = in.zero(vt)
 			}
 			if x.CommaOk {
-				fr.locals[x] = TupleV{v, in.tt.Bool(ok)}
+				fr.setv(x, TupleV{v, in.tt.Bool(ok)})
 			} else {
-				fr.locals[x] = v
+				fr.setv(x, v)
 			}
 		default:
 			in.unsupported(fmt.Sprintf("Lookup on %T", xv))
 		}
 	case *ssa.Slice:
-		fr.locals[x] = in.slice(fr, x)
+		fr.setv(x, in.slice(fr, x))
 	case *ssa.MakeSlice:
 		n := in.intOf(in.get(fr, x.Len), "make len")
 		c := in.intOf(in.get(fr, x.Cap), "make cap")
@@ -962,11 +1096,11 @@ func (in *Interp) exec(fr *frame, ins ssa.Instruction) {
 			in.rtPanic(fr, ins, "makeslice: len out of range (huge)")
 		}
 		et := x.Type().Underlying().(*types.Slice).Elem()
-		fr.locals[x] = in.makeSlice(et, n, c)
+		fr.setv(x, in.makeSlice(et, n, c))
 	case *ssa.MakeMap:
 		mt := x.Type().Underlying().(*types.Map)
 		in.nextMap++
-		fr.locals[x] = &MapV{id: in.nextMap, kt: mt.Key(), vt: mt.Elem()}
+		fr.setv(x, &MapV{id: in.nextMap, kt: mt.Key(), vt: mt.Elem()})
 	case *ssa.MapUpdate:
 		m := in.get(fr, x.Map).(*MapV)
 		if m == nil {
@@ -983,17 +1117,17 @@ func (in *Interp) exec(fr *frame, ins ssa.Instruction) {
 				it.keys = append(it.keys, c.keys...)
 				it.vals = append(it.vals, c.vals...)
 			}
-			fr.locals[x] = it
+			fr.setv(x, it)
 		case StrV:
-			fr.locals[x] = &iterV{str: &c}
+			fr.setv(x, &iterV{str: &c})
 		default:
 			in.unsupported(fmt.Sprintf("Range on %T", xv))
 		}
 	case *ssa.Next:
 		it := in.get(fr, x.Iter).(*iterV)
-		fr.locals[x] = in.iterNext(it, x)
+		fr.setv(x, in.iterNext(it, x))
 	case *ssa.TypeAssert:
-		fr.locals[x] = in.typeAssert(fr, x)
+		fr.setv(x, in.typeAssert(fr, x))
 	case *ssa.Phi:
 		in.unsupported("phi in the middle of a block")
 	case *ssa.SliceToArrayPointer, *ssa.MakeChan, *ssa.Send, *ssa.Select:
@@ -1499,7 +1633,40 @@ func (in *Interp) prepareCall(fr *frame, c *ssa.CallCommon, site ssa.Instruction
 }
 
 func (in *Interp) callCommon(fr *frame, c *ssa.CallCommon, site ssa.Instruction) Value {
-	return in.prepareCall(fr, c, site)()
+	if c.IsInvoke() {
+		recv := in.get(fr, c.Value).(IfaceV)
+		if recv.t == nil {
+			in.rtPanic(fr, site, "invalid memory address or nil pointer dereference (method call on nil interface)")
+		}
+		fn := in.lookupMethod(recv.t, c.Method.Pkg(), c.Method.Name())
+		if fn == nil {
+			in.unsupported("no method " + c.Method.Name() + " on " + recv.t.String())
+		}
+		args := make([]Value, 0, len(c.Args)+1)
+		args = append(args, recv.v)
+		for _, a := range c.Args {
+			args = append(args, in.get(fr, a))
+		}
+		return in.callFn(fn, args, nil)
+	}
+	args := make([]Value, len(c.Args))
+	for i, a := range c.Args {
+		args[i] = in.get(fr, a)
+	}
+	switch f := c.Value.(type) {
+	case *ssa.Builtin:
+		return in.builtin(fr, site, f, args, c)
+	case *ssa.Function:
+		return in.callFn(f, args, nil)
+	}
+	fv, ok := in.get(fr, c.Value).(FuncV)
+	if !ok {
+		in.unsupported("call of non-function value")
+	}
+	if fv.fn == nil {
+		in.rtPanic(fr, site, "invalid memory address or nil pointer dereference (nil func call)")
+	}
+	return in.callFn(fv.fn, args, fv.env)
 }
 
 func (in *Interp) builtin(fr *frame, site ssa.Instruction, b *ssa.Builtin, args []Value, c *ssa.CallCommon) Value {
@@ -1605,3 +1772,12 @@ func (in *Interp) appendSlice(s SliceV, add []Value, et types.Type) SliceV {
 	arr := in.newObj(types.NewArray(et, int64(newCap)), &ArrayV{e: e}, "append")
 	return SliceV{arr: arr, off: 0, len: newLen, cap: newCap}
 }
+
+func (fr *frame) setv(v ssa.Value, val Value) {
+	i := fr.fi.idx[v]
+	fr.locals[i] = val
+	fr.set[i] = true
+}
+
+var qstat map[string]int
+var qstatMu sync.Mutex
